@@ -87,6 +87,12 @@ class Gating(Observer):
                 ok = None   # a bare group name: spelling accepted by Supervisor, left open
             names['name_ok'] = ok
         info['class'] = names
+        # documented extra condition of restart_sequence: jobs in progress on ANY instance, as this instance sees it
+        # through get_supvisors_state (starting_jobs / stopping_jobs lists)
+        if meth == 'restart_sequence':
+            with frozen(sim, dst):
+                st = dst.rpcif.get_supvisors_state()
+            info['jobs_anywhere'] = bool(st.get('starting_jobs') or st.get('stopping_jobs'))
         info['user_sync'] = 'USER' in [o.name if hasattr(o, 'name') else str(o) for o in sv.options.synchro_options]
         with frozen(sim, dst):
             info['snapshot'] = full_snapshot(dst)
@@ -131,6 +137,12 @@ class Gating(Observer):
             if fault == BAD_STATE and meth not in ('end_sync', 'restart_sequence') \
                     and not (meth in ('restart', 'shutdown') and not info['has_master']):
                 self.violate('refused-in-state', detail, 'refused-in-state:%s:%s' % (meth, state))
+            if meth == 'restart_sequence' and info.get('jobs_anywhere'):
+                self._probe('restart_sequence_with_jobs_somewhere')
+                if fault != BAD_STATE:
+                    self.violate('served-with-jobs', detail, 'served-with-jobs-in-progress:restart_sequence')
+            if meth == 'restart_sequence' and fault == BAD_STATE and not info.get('jobs_anywhere'):
+                self.violate('refused-in-state', detail, 'refused-in-state:restart_sequence:OPERATION')
             bad_strategy = cls.get('strategy_ok') is False
             bad_name = cls.get('name_ok') is False
             if bad_strategy or bad_name:
